@@ -1433,6 +1433,12 @@ class SuccessionDiagram:
             m_data = self.node_data(m_id)
             m_data["expanded"] = True
 
+        # Attractor data computed while the node had no successors
+        # is no longer valid (same as in `_expand_one_node`).
+        node["attractor_seeds"] = None
+        node["attractor_candidates"] = None
+        node["attractor_sets"] = None
+
         node["expanded"] = True
         node["skipped"] = True
 
@@ -1480,6 +1486,12 @@ class SuccessionDiagram:
                 if is_subspace(m_trap, node["space"]):
                     self._ensure_edge(node_id, m_id, m_trap)
                     skip_edges += 1
+
+            # Attractor data computed while the node had no successors
+            # is no longer valid (same as in `_expand_one_node`).
+            node["attractor_seeds"] = None
+            node["attractor_candidates"] = None
+            node["attractor_sets"] = None
 
             node["skipped"] = True
             node["expanded"] = True
